@@ -187,6 +187,45 @@ func (f *faultReader) Read(p []byte) (int, error) {
 
 var errSentinel = errors.New("injected read failure")
 
+// chunkedReader serves data in chunks of a fixed size (0: as much as asked for, -2: half of what is asked for), EOF at the end.
+type chunkedReader struct {
+	data  []byte
+	pos   int
+	chunk int
+}
+
+func (c *chunkedReader) Read(p []byte) (int, error) {
+	if len(p) == 0 {
+		return 0, nil
+	}
+	if c.pos >= len(c.data) {
+		return 0, io.EOF
+	}
+	n := len(p)
+	switch {
+	case c.chunk == -2:
+		n = (n + 1) / 2
+	case c.chunk > 0 && n > c.chunk:
+		n = c.chunk
+	}
+	n = copy(p[:n], c.data[c.pos:])
+	c.pos += n
+	return n, nil
+}
+
+// byteChunked adds io.ByteReader (as bytes.Reader, bufio.Reader have it).
+type byteChunked struct{ *chunkedReader }
+
+func (b byteChunked) ReadByte() (byte, error) {
+	if b.pos >= len(b.data) {
+		return 0, io.EOF
+	}
+	b.pos++
+	return b.data[b.pos-1], nil
+}
+
+func u32le(v uint32) []byte { return []byte{byte(v), byte(v >> 8), byte(v >> 16), byte(v >> 24)} }
+
 func main() {
 	prop := flag.String("property", "C20", "")
 	flag.String("replay", "", "")
@@ -435,6 +474,53 @@ func main() {
 		outcomes.Add("str" + fmt.Sprint(len(s)))
 	}
 	run.Sample(map[string]any{"prim": "String", "lengths": []int{0, 1, 5, 5, 17, 19, 300, 70000}, "cuts": "every prefix length <12 and the last 3", "corrupt_lengths": "0x7fffffff 0x80000000 0xffffffff 0xfffffffc len+1"})
+
+	// 6b: stream reads of strings / byte runs around the pre-allocation threshold, under every uniform chunking and
+	// through readers with and without io.ByteReader: exact value, no error, exactly 4+n (or n) bytes consumed.
+	for _, n := range []int{0, 1, 2, 7, 8, 9, 4095, 4096, 4097, 8191, 8192, 8193, 12289, 70000} {
+		payload := make([]byte, n)
+		for i := range payload {
+			payload[i] = byte(i*7 + 3)
+		}
+		enc := append(u32le(uint32(n)), payload...)
+		enc = append(enc, 0xEE, 0xEE, 0xEE, 0xEE, 0xEE, 0xEE, 0xEE, 0xEE) // guard bytes that must stay unread
+		for _, chunk := range []int{0, 1, 7, 4096, -2} { // 0 = everything asked for, -2 = half of what is asked for
+			for _, byteReader := range []bool{false, true} {
+				states++
+				c := map[string]any{"prim": "String", "length": n, "chunk": chunk, "reader_offers_ReadByte": byteReader}
+				mk := func() (*chunkedReader, io.Reader) {
+					cr := &chunkedReader{data: enc, chunk: chunk}
+					if byteReader {
+						return cr, byteChunked{cr}
+					}
+					return cr, cr
+				}
+				cr, src := mk()
+				er := iohelp.NewErrorReader(src)
+				var got string
+				if pk, what := catch(func() { got = iohelp.ReadString(er) }); pk {
+					run.Report("C20|stream-chunked|panic|ReadString", "ReadString panicked: "+what, c)
+				} else if er.Err != nil || got != string(payload) {
+					run.Report("C20|stream-chunked|inverse|ReadString", fmt.Sprintf("ReadString of a %d-byte string read in chunks of %d returned %d bytes, err %v", n, chunk, len(got), er.Err), c)
+				} else if cr.pos != 4+n {
+					run.Report("C20|stream-chunked|consumed|ReadString", fmt.Sprintf("ReadString of a %d-byte string consumed %d bytes of the stream (want %d)", n, cr.pos, 4+n), c)
+				}
+				cr, src = mk()
+				cr.pos = 4
+				er = iohelp.NewErrorReader(src)
+				var gb []byte
+				if pk, what := catch(func() { gb = iohelp.ReadBytes(er, uint32(n)) }); pk {
+					run.Report("C20|stream-chunked|panic|ReadBytes", "ReadBytes panicked: "+what, c)
+				} else if er.Err != nil || !bytes.Equal(gb, payload) {
+					run.Report("C20|stream-chunked|inverse|ReadBytes", fmt.Sprintf("ReadBytes(%d) read in chunks of %d returned %d bytes, err %v", n, chunk, len(gb), er.Err), c)
+				} else if cr.pos != 4+n {
+					run.Report("C20|stream-chunked|consumed|ReadBytes", fmt.Sprintf("ReadBytes(%d) consumed %d bytes of the stream", n, cr.pos-4), c)
+				}
+				trans += 2
+				outcomes.Add(fmt.Sprintf("chunked%d/%d/%v", n, chunk, byteReader))
+			}
+		}
+	}
 
 	// 7: stream reads that fail: error latched, and the result does not depend on what an earlier read left behind.
 	type sreader struct {
